@@ -138,8 +138,6 @@ def explain_case(c, text, err):
         return "KF-C02-11"
     if re.search(r"^(from \S+ )?import\s*$", text, re.M):
         return "KF-C02-5"
-    if re.search(r"(= |return )(if|for|while) .*:\s*$", text, re.M) or re.search(r"^\s*return \w+(: [\w\[\], ]+)? = ", text, re.M):
-        return "KF-C02-2"
     if re.search(r"^\s*= \(\)", text, re.M):
         return "KF-C02-3"
     return None
